@@ -457,9 +457,11 @@ pub fn check(case: &SCase) -> Verdict {
                 if b > l && owed && !have.contains(&g) {
                     missing.push(*val);
                 }
-                if b > l && b < t && e > t {
+                if end_q.is_some() && b > l && b < t && !have.contains(&g) {
+                    // pushed before the remote asked to unlink, still on its way when it was unlinked
                     unlink_mid_burst = true;
                 }
+                let _ = e;
             }
             if !missing.is_empty() {
                 v.fail(
@@ -501,7 +503,7 @@ pub fn check(case: &SCase) -> Verdict {
     }
     v.class_if(nontrivial, "burst>cap-with-stalled-remote");
     v.class_if(mid_burst_link, "linked-mid-burst");
-    v.class_if(unlink_mid_burst, "unlink-mid-burst");
+    v.class_if(unlink_mid_burst, "unlinked-with-items-in-flight");
     v.class_if(any_ambiguous, "sync-ambiguous-remote");
     v.class_if(relinked, "relinked");
     v.class_if(obs.remotes.len() >= 2, "remotes>=2");
